@@ -112,3 +112,17 @@ Theorem C14_own_mark_output_differs :
   <> hnode (fun b => b) om_classes om_heap (fun _ => None) 5 [] 0.
 Proof. exact own_mark_output_differs. Qed.
 Print Assumptions C14_own_mark_output_differs.
+
+(* ---- an output that is already the output of another task (e2f4b5e): the task's output is a copy appended to the
+   graph, marked by the task; every identifier of the graph before is unchanged in the extended graph              *)
+Theorem C14_output_copy_keeps_every_identifier : forall H cs h look c t fuel st n,
+  (forall m x, nth_error h m = Some x -> forall k, In k (succs x) -> k < length h) ->
+  n < length h ->
+  hnode H cs h look fuel st n = hnode H cs (add_output h c t) look fuel st n.
+Proof. exact output_copy_keeps_every_identifier. Qed.
+Print Assumptions C14_output_copy_keeps_every_identifier.
+
+Theorem C14_output_copy_is_marked : forall h c t x,
+  nth_error h c = Some x -> nth_error (add_output h c t) (length h) = Some (with_task x (Some t)).
+Proof. exact output_copy_is_marked. Qed.
+Print Assumptions C14_output_copy_is_marked.
